@@ -259,6 +259,15 @@ def run_unit(u, b, keep=None, trace=False, use_cache=True):
         if 'ignoring' in so + se and 'forall' in so + se:
             res['error'] = 'goto-instrument dropped a quantifier'
             return res
+        # loops of the DFCC library iterate over write-set arrays sized by the number of assigns targets: give
+        # exactly those loops a sufficient bound, independent of the unit's own --unwind
+        m = re.search(r'assigns clauses of at most (\d+) targets', so + se)
+        if m and u.get('mode', 'dfcc') == 'dfcc':
+            nt = int(m.group(1)) + 2
+            rc2, so2, se2, _ = sh(['cbmc', igb, '--show-loops'], timeout=120)
+            names = re.findall(r'^Loop (__CPROVER_contracts_\S+):', so2, re.M)
+            for nm in names:
+                cb += ['--unwindset', '%s:%d' % (nm, max(nt, 3))]
         res['checker_cmd'] = ' '.join(gi[:-2]) + ' <unit.gb> <out.gb> && ' + ' '.join(['cbmc', '<out.gb>'] + cb[2:])
         key = hashlib.sha256(open(igb, 'rb').read() + ' '.join(cb[2:]).encode()).hexdigest()
         cpath = os.path.join(CACHE, key + '.json')
